@@ -32,8 +32,11 @@ def compare(inp, got, mode):
     eo, go = T.mask_cg(exp[12:]), T.mask_cg(got[12:])
     if eo == go:
         return None
-    if mode == "realign" and "cg:Z:<cigar>" not in eo and go == eo + ["cg:Z:<cigar>"]:
-        return None  # realign creates the CIGAR of a record that had none
+    if mode == "realign" and "cg:Z:<cigar>" not in eo and go == eo + ["cg:Z:<cigar>"] and len(got[-1]) > 5 \
+            and int(exp[3]) - int(exp[2]) <= 60000:
+        # realign creates the CIGAR of a record that had none - a real (non-empty) one, and only for a record it does realign: a record
+        # beyond 60000 read bases is copied, so a cg:Z: appearing there is an invented field (tightened after seeded change C16-6)
+        return None
     return T.describe_diff(exp[:12] + eo, exp[:12] + go)
 
 
